@@ -20,7 +20,9 @@ import (
 	"github.com/tikv/pd/pkg/typeutil"
 	"github.com/tikv/pd/server"
 	"github.com/tikv/pd/server/config"
+	"github.com/tikv/pd/pkg/etcdutil"
 	"go.etcd.io/etcd/clientv3"
+	"go.etcd.io/etcd/pkg/types"
 	"google.golang.org/grpc/metadata"
 
 	"pdverif/internal/kvx15"
@@ -143,6 +145,55 @@ func records(x *node) string {
 
 // clusterPhase returns a function that waits (bounded) for the members to be closed and removes their data directories;
 // closing a multi-member etcd cluster takes 10-20 s and runs in the background while the driver goes on.
+// foreignPeerURL: the peer URL of a running member of ANOTHER cluster (the single-member server of the main phase)
+var foreignPeerURL string
+
+// startupIdentityCheck: etcdutil.CheckClusterID is what Server.startEtcd runs on every member before the PD cluster id is
+// read or initialised; it has to refuse a configuration in which ANY listed peer that answers belongs to another cluster -
+// a minority too (a member that was set up again from nothing under its old address; a stale initial-cluster entry). The
+// real function is run on the real peers: two members of this cluster plus the foreign one, in every position of
+// initial-cluster and repeatedly (the walk follows Go's map order).
+func startupIdentityCheck(R *res.Result, c *cluster) {
+	if foreignPeerURL == "" || len(c.nodes) < 3 {
+		return
+	}
+	local := c.nodes[0].s.GetMember().Etcd().Server.Cluster().ID()
+	own := func(i int) string { return c.nodes[i].cfg.AdvertisePeerUrls }
+	// control: the three members of this cluster pass
+	um, err := types.NewURLsMap(fmt.Sprintf("m1=%s,m2=%s,m3=%s", own(0), own(1), own(2)))
+	if err != nil {
+		R.Notes = append(R.Notes, "start-up identity probe skipped: "+err.Error())
+		return
+	}
+	if err := etcdutil.CheckClusterID(local, um, nil); err != nil {
+		R.Violate("C20:cluster:startup-check-refuses-own-cluster", err.Error(), nil)
+		return
+	}
+	missed, rounds := 0, 0
+	for _, ic := range []string{
+		fmt.Sprintf("m1=%s,m2=%s,x=%s", own(0), own(1), foreignPeerURL),
+		fmt.Sprintf("x=%s,m1=%s,m3=%s", foreignPeerURL, own(0), own(2)),
+		fmt.Sprintf("m1=%s,x=%s,m2=%s,m3=%s,y=http://127.0.0.1:1", own(0), foreignPeerURL, own(1), own(2)), // one listed peer is down
+	} {
+		for k := 0; k < 12; k++ {
+			um, err := types.NewURLsMap(ic) // a fresh map per round: the walk order is the map's iteration order
+			if err != nil {
+				panic(err)
+			}
+			rounds++
+			if err := etcdutil.CheckClusterID(local, um, nil); err == nil {
+				missed++
+			}
+		}
+	}
+	R.CountN("cluster:startup-check:foreign-minority-member:refused", rounds-missed)
+	if missed > 0 {
+		R.Violate("C20:cluster:foreign-minority-member-accepted-at-start-up",
+			fmt.Sprintf("etcdutil.CheckClusterID accepted an initial-cluster in which one answering peer belongs to another etcd cluster in %d of %d start-up checks (two or three members of this cluster + the foreign one)", missed, rounds),
+			[]string{"members m1,m2,m3 of one cluster", "x = a member of another cluster listed in initial-cluster", "CheckClusterID(local id, initial-cluster)"})
+	}
+}
+
 func clusterPhase(R *res.Result, restart bool) (cleanup func()) {
 	cleanup = func() {}
 	t0 := time.Now()
@@ -210,6 +261,8 @@ func clusterPhase(R *res.Result, restart bool) (cleanup func()) {
 			followers = append(followers, x)
 		}
 	}
+	startupIdentityCheck(R, c)
+	lap("start-up identity check probed")
 	ek := kvx15.NewEtcdKV(ld.s.GetClient().KV)
 	ld.s.GetClient().KV = ek
 	hdr := &pdpb.RequestHeader{ClusterId: id}
